@@ -30,6 +30,9 @@ type Input struct {
 	NoIdent bool         `json:"no_ident,omitempty"` // tcp: bytes written straight to the listening router
 	Payload *PayloadSpec `json:"payload,omitempty"`  // decode
 	Senders [][]ValSpec  `json:"senders,omitempty"`  // conc: one list of values per sending goroutine
+	Suite   string       `json:"suite,omitempty"`    // conn / router / decode: suite of the connections (default Ed25519; P256 has untagged points)
+	Steps   []Input      `json:"steps,omitempty"`    // seq: cases run one after the other in ONE process, reported as one case
+	Fresh   bool         `json:"fresh,omitempty"`    // run in a process that has not touched the implementation before
 	Backlog int          `json:"backlog,omitempty"`  // local: this many numbered messages while the receiver's handler is busy
 	FailAt  *int         `json:"fail_at,omitempty"`  // stream (conn, router): the sender's Write crossing this wire offset fails part-way
 }
@@ -164,7 +167,7 @@ func guarded(f func()) (returned bool) {
 func sendCaptured(items []sentItem, failAt int) (wire []byte, sends []bool, crash string, hung string) {
 	cap := newScriptConn(nil, true)
 	cap.failAt = failAt
-	sc := network.VerifNewTCPConn(cap, ed25519)
+	sc := network.VerifNewTCPConn(cap, curSuite)
 	var mu sync.Mutex
 	returned := guarded(func() {
 		defer func() {
@@ -226,7 +229,7 @@ func receiveConn(segs [][]byte, pl *pool) streamObs {
 // carries the fields set at the end.
 func receiveConnLoop(segs [][]byte, pl *pool, mu *sync.Mutex, shared *streamObs) (o streamObs) {
 	sconn := newScriptConn(segs, true)
-	rc := network.VerifNewTCPConn(sconn, ed25519)
+	rc := network.VerifNewTCPConn(sconn, curSuite)
 	defer func() {
 		if r := recover(); r != nil {
 			o.crash = fmt.Sprint("panic in Receive: ", r)
@@ -309,7 +312,7 @@ func receiveRouter(segs [][]byte) (o streamObs) {
 	currentLog = &dl
 	logMu.Unlock()
 	sconn := newScriptConn(segs, false)
-	rc := network.VerifNewTCPConn(sconn, ed25519)
+	rc := network.VerifNewTCPConn(sconn, curSuite)
 	attachSeq++
 	remote := genIdentity(800000 + attachSeq%50)
 	if err := b.VerifAttach(remote, rc); err != nil {
@@ -619,7 +622,7 @@ func runStream(in *Input) lib.Case {
 			if err != nil {
 				return lib.Case{Discard: true, Obs: "generated value has no encoding: " + err.Error()}
 			}
-			k := pl.add(mb)
+			k := pl.addValue(v, mb)
 			items = append(items, sentItem{coq: fmt.Sprintf("IMsg %d", k), k: k, value: v, kind: "msg", bytes: frameOf(mb)})
 		case "frame":
 			b := buildPayload(is.Payload, &pl.ctx)
@@ -859,7 +862,12 @@ func runDecode(in *Input) lib.Case {
 		orig = genValue(in.Payload.Val, &genCtx{})
 	}
 	b := buildPayload(in.Payload, &pl.ctx)
-	k := pl.add(b)
+	k := -1
+	if orig != nil {
+		k = pl.addValue(orig, b)
+	} else {
+		k = pl.add(b)
+	}
 	obsCoq, human, valeq, tyeq := "DOError", "error", true, true
 	returned := guarded(func() {
 		defer func() {
@@ -867,7 +875,7 @@ func runDecode(in *Input) lib.Case {
 				obsCoq, human = "DOPanic", fmt.Sprint("panic: ", r)
 			}
 		}()
-		id, msg, err := network.Unmarshal(append([]byte{}, b...), ed25519)
+		id, msg, err := network.Unmarshal(append([]byte{}, b...), curSuite)
 		if err != nil {
 			human = "error (" + errClass(err) + ")"
 			return
@@ -1255,6 +1263,49 @@ func runConc(in *Input) lib.Case {
 	return lib.Case{Coq: coq, Class: in.Level + "-" + in.Tag, Obs: obs, Nontrivial: total > 1, Key: coq}
 }
 
+// ---- a sequence of cases in one process (decoding with several suites in a given order) ----
+
+func runSeq(in *Input) lib.Case {
+	var coqs []string
+	var obs []interface{}
+	for i := range in.Steps {
+		st := in.Steps[i]
+		curSuite = suiteByName(st.Suite)
+		var c lib.Case
+		switch st.Kind {
+		case "stream":
+			c = runStream(&st)
+		case "decode":
+			c = runDecode(&st)
+		default:
+			panic("seq: unsupported step kind " + st.Kind)
+		}
+		if c.Discard {
+			return lib.Case{Discard: true, Obs: c.Obs}
+		}
+		coqs = append(coqs, "("+c.Coq+")")
+		obs = append(obs, map[string]interface{}{"step": i, "suite": st.Suite, "class": c.Class, "obs": c.Obs})
+	}
+	return lib.Case{Coq: "CSeq [" + strings.Join(coqs, ";\n    ") + "]", Class: "seq-" + in.Tag, Obs: obs, Nontrivial: true,
+		Key: "seq|" + in.Tag + "|" + strings.Join(coqs, "|")}
+}
+
+// ---- the type ids of the registered message types ------------------------------------------
+
+func runTypeIDs(in *Input) lib.Case {
+	ch := &chunker{}
+	var ids, names []string
+	for i, id := range registeredIDs {
+		ids = append(ids, ch.encode(id))
+		names = append(names, regTypes[i].typ.String())
+	}
+	obs := map[string]interface{}{"types": names}
+	if len(idCollisions) > 0 {
+		obs["same_id"] = idCollisions
+	}
+	return lib.Case{Coq: "CTypeIds [" + strings.Join(ids, "; ") + "]", Class: "typeids-" + in.Tag, Obs: obs, Nontrivial: true, Key: "typeids"}
+}
+
 func runInput(raw json.RawMessage) lib.Case {
 	var in Input
 	if err := json.Unmarshal(raw, &in); err != nil {
@@ -1264,7 +1315,13 @@ func runInput(raw json.RawMessage) lib.Case {
 		log.GetStdOut()
 		log.GetStdErr()
 	}()
+	curSuite = suiteByName(in.Suite)
+	defer func() { curSuite = ed25519 }()
 	switch in.Kind {
+	case "seq":
+		return runSeq(&in)
+	case "typeids":
+		return runTypeIDs(&in)
 	case "stream":
 		return runStream(&in)
 	case "decode":
